@@ -230,6 +230,8 @@ def gen_cfg(rng: random.Random, big_ok: bool):
         resampling=rng.choice([None, None, "nearest", "average"]),
         content=rng.choice(CONTENTS), env=rng.randrange(len(ENVS)), seed=rng.randint(0, 10**6),
         container=rng.choice(CONTAINERS),
+        nd_spell_attrs=rng.choice(SPELLINGS), nd_spell_kw=rng.choice(SPELLINGS),
+        int_spell=rng.choice(["py", "py", "np_i64", "np_i32"]),
     )
 
 
@@ -300,11 +302,48 @@ def build(cfg, GeoBox, wrap_xr):
     kw = {}
     if layout == "SYX":
         kw["time"] = [f"20{i:02d}-01-01" for i in range(nb)]
-    xx = wrap_xr(pix, gbox, nodata=cfg["attrs_nodata"], **kw)
+    xx = wrap_xr(pix, gbox, nodata=spell(cfg["attrs_nodata"], cfg.get("nd_spell_attrs", "py"), cfg["dtype"]), **kw)
     return xx, pix, want, gbox
 
 
 CONTAINERS = ["list", "list", "tuple", "generator", "map", "iter", "zip"]
+SPELLINGS = ["py", "py", "np_pix", "np_pix", "np_f32", "np_f64", "np_i64", "arr0d"]
+
+
+def spell(v, kind: str, dt):
+    """the same number in another spelling: python int / float, numpy scalar of the pixel type, np.float32 / float64 /
+    int64, 0-d array (what attrs read from files, np.iinfo(...).min, arr.min() … hand over).  Falls back to the plain
+    python value when the spelling cannot hold the value exactly."""
+    if v is None or kind == "py":
+        return v
+    try:
+        with warnings.catch_warnings():
+            warnings.simplefilter("ignore")
+            if kind == "np_pix":
+                out = np.dtype(dt).type(v)
+            elif kind == "np_f32":
+                out = np.float32(v)
+            elif kind == "np_f64":
+                out = np.float64(v)
+            elif kind == "np_i64":
+                out = np.int64(v) if float(v).is_integer() else v
+            else:
+                out = np.array(v, dtype=dt)
+        same = (float(out) == float(v)) or (math.isnan(float(out)) and math.isnan(float(v)))
+        return out if same else v
+    except (ValueError, OverflowError, TypeError):
+        return v
+
+
+def snapshot(obj):
+    """structural fingerprint of a caller-owned argument (dicts / lists, nested; array-likes by identity)"""
+    if isinstance(obj, dict):
+        return ("dict", tuple((k, snapshot(v)) for k, v in obj.items()))
+    if isinstance(obj, (list, tuple)):
+        return (type(obj).__name__, tuple(snapshot(v) for v in obj))
+    if isinstance(obj, (int, float, str, bool, type(None), np.generic)):
+        return ("val", type(obj).__name__, repr(obj))
+    return ("obj", id(obj))
 
 
 def as_container(seq, kind: str, sized: bool = False):
@@ -329,8 +368,9 @@ def band_first(arr, layout):
     return arr[None] if arr.ndim == 2 else (arr if layout == "SYX" else arr.transpose(2, 0, 1))
 
 
-def one_case(cfg, workdir, tag):
-    """→ (facts for the correspondence lines, failures [(key, what)])"""
+def one_case(cfg, workdir, tag, shared=None):
+    """→ (facts for the correspondence lines, failures [(key, what)]).  `shared`: option OBJECTS (intermediate_compression
+    dict, overview_levels list) that the caller re-uses across several writes."""
     # pylint: disable=import-outside-toplevel,too-many-locals,too-many-branches,too-many-statements
     import rasterio
     import tifffile
@@ -347,15 +387,18 @@ def one_case(cfg, workdir, tag):
     entry, dest, ovr_mode = cfg["entry"], cfg["dest"], cfg["ovr_mode"]
     nodata = expected_nodata(cfg)
     kw = {}
+    ispell = {"np_i64": np.int64, "np_i32": np.int32}.get(cfg.get("int_spell", "py"), int)
     for k in ("blocksize", "ovr_blocksize"):
         if cfg[k] is not None:
-            kw[k] = cfg[k]
+            kw[k] = ispell(cfg[k]) if k == "blocksize" else cfg[k]
     if cfg["windowed"]:
         kw["use_windowed_writes"] = True
     if cfg["icomp"] is not False:
-        kw["intermediate_compression"] = cfg["icomp"]
+        kw["intermediate_compression"] = dict(cfg["icomp"]) if isinstance(cfg["icomp"], dict) else cfg["icomp"]
+        if shared and isinstance(cfg["icomp"], dict):
+            kw["intermediate_compression"] = shared["icomp"]
     if cfg["kw_nodata"] is not None:
-        kw["nodata"] = cfg["kw_nodata"]
+        kw["nodata"] = spell(cfg["kw_nodata"], cfg.get("nd_spell_kw", "py"), cfg["dtype"])
     ydim = 1 if layout == "SYX" else 0
     layers = [xx]
     if ovr_mode == "supplied":
@@ -375,7 +418,7 @@ def one_case(cfg, workdir, tag):
         elif ovr_mode == "none":
             kw["overview_levels"] = as_container([], cfg.get("container", "list"), sized=True)
         elif ovr_mode == "levels":
-            kw["overview_levels"] = as_container(list(cfg["overview_levels"]), cfg.get("container", "list"), sized=True)
+            kw["overview_levels"] = as_container([ispell(l) for l in cfg["overview_levels"]], cfg.get("container", "list"), sized=True)
         if ovr_mode in ("default", "levels") and cfg["resampling"] is not None:
             kw["overview_resampling"] = cfg["resampling"]
 
@@ -392,6 +435,17 @@ def one_case(cfg, workdir, tag):
     if not is_mem and entry not in ("to_cog", "acc_to_cog"):
         kw["overwrite"] = overwrite
 
+    if shared and ovr_mode == "levels" and entry != "write_cog_layers" and list(cfg["overview_levels"]) == list(shared["levels"]):
+        kw["overview_levels"] = shared["levels"]
+    # caller-owned mutable arguments (and the arrays' attrs) must come back unchanged
+    owned = {f"{k}=": v for k, v in kw.items() if isinstance(v, (dict, list))}
+    owned["geo_im.attrs"] = xx.attrs
+    for i_, l_ in enumerate(layers[1:]):
+        owned[f"overviews[{i_}].attrs"] = l_.attrs
+    if entry == "write_cog_layers":
+        owned["layers"] = layers
+    before = {k: snapshot(v) for k, v in owned.items()}
+
     out = None
     err = None
     with warnings.catch_warnings(record=True) as wlist:
@@ -407,10 +461,15 @@ def one_case(cfg, workdir, tag):
                 elif entry == "acc_write_cog":
                     out = xx.odc.write_cog(":mem:" if is_mem else path, **kw)
                 else:
-                    out = RIO.write_cog_layers(as_container(layers, cfg.get("container", "list")), ":mem:" if is_mem else path, **kw)
+                    lay = layers if cfg.get("container", "list") == "list" else as_container(layers, cfg["container"])
+                    out = RIO.write_cog_layers(lay, ":mem:" if is_mem else path, **kw)
         except Exception as e:  # pylint: disable=broad-except
             err = e
     warned = any("multiple of 16" in str(x.message) for x in wlist)
+    changed = [k for k, v in owned.items() if snapshot(v) != before[k]]
+    if changed:
+        fails.append(("caller-argument-mutated", f"{entry} modified the caller's own object(s) {changed}: now "
+                      + "; ".join(f"{k} {owned[k]!r}"[:120] for k in changed)))
 
     # ---- overwrite guard
     if dst_exists and not overwrite:
@@ -546,9 +605,9 @@ def cfg_sig(cfg) -> str:
         "|windowed" if cfg["windowed"] else "")
 
 
-def run_case(R: Run, cfg, workdir, tag):
+def run_case(R: Run, cfg, workdir, tag, shared=None):
     try:
-        facts, fails = one_case(cfg, workdir, tag)
+        facts, fails = one_case(cfg, workdir, tag, shared)
     except Exception:  # pylint: disable=broad-except
         facts, fails = {}, [("harness-exception", traceback.format_exc()[-800:])]
     sig = cfg_sig(cfg)
@@ -760,7 +819,9 @@ def run(R: Run):
                                         nlayers=1 + n % 3, overwrite_new=bool(n % 2), blocksize=[16, 32, 48, None, 20][n % 5],
                                         windowed=windowed, icomp=[False, True, "zstd", {"compress": "lzw"}][(n // 2) % 4],
                                         resampling=[None, "nearest", "average"][n % 3], content=CONTENTS[n % len(CONTENTS)],
-                                        env=env, seed=1000 + n, container=CONTAINERS[n % len(CONTAINERS)]))
+                                        env=env, seed=1000 + n, container=CONTAINERS[n % len(CONTAINERS)],
+                                        nd_spell_attrs=SPELLINGS[n % len(SPELLINGS)], nd_spell_kw=SPELLINGS[(n // 2) % len(SPELLINGS)],
+                                        int_spell=["py", "np_i64", "np_i32"][n % 3]))
         R.extra["cross_product_size"] = len(matrix)
         pick = matrix if not R.quick else rng.sample(matrix, 260)
         t1 = time.time()
@@ -769,6 +830,46 @@ def run(R: Run):
                 R.notes.append(f"cross-product loop stopped by time budget after {i} of {len(pick)} cases")
                 break
             run_case(R, cfg, workdir, f"m{i}")
+            done += 1
+
+        # ---- sequences of 2-4 writes in this process that RE-USE the same option objects (one intermediate_compression
+        # dict, one overview_levels list) across images with different nodata / dtype / block size, mixing supplied and
+        # computed overviews and the entry points; every image must read back exactly as with fresh arguments, and the
+        # shared objects must stay what the caller made them
+        def sequence(k):
+            shared = {"icomp": {"compress": rng.choice(["lzw", "deflate", "zstd"])}, "levels": rng.choice([[2], [2, 4]])}
+            frozen = snapshot(shared)
+            n_w = rng.randint(2, 4)
+            modes = ["supplied", rng.choice(["levels", "default"])] + [rng.choice(OVR_MODES) for _ in range(2)]
+            rng.shuffle(modes)
+            for j in range(n_w):
+                cfg = gen_cfg(rng, big_ok=False)
+                big = k == 0 and j == 1  # one image >= 512 px (default computed overviews) in every run
+                cfg.update(icomp=dict(shared["icomp"]), ovr_mode=modes[j], container="list",
+                           entry=rng.choice(["write_cog", "to_cog", "acc_write_cog", "acc_to_cog"] + (["write_cog_layers"] if modes[j] in ("supplied", "none") else [])))
+                if cfg["entry"] in ("to_cog", "acc_to_cog"):
+                    cfg["dest"] = "mem"
+                if big:
+                    cfg.update(h=rng.randint(512, 640), w=rng.randint(512, 640), dtype=rng.choice(["uint8", "int16"]), nb=min(cfg["nb"], 2),
+                               ovr_mode="default", entry="write_cog", kw_nodata=None)
+                    cfg["attrs_nodata"] = rng.choice(nodata_candidates(cfg["dtype"]))
+                elif cfg["h"] < 40 or cfg["w"] < 40:
+                    cfg.update(h=rng.randint(40, 200), w=rng.randint(40, 200))
+                cands = nodata_candidates(cfg["dtype"])
+                if not big:
+                    cfg["attrs_nodata"] = rng.choice([None, cands[(k + j) % len(cands)]])
+                    cfg["kw_nodata"] = rng.choice([None, None, cands[(k + 2 * j + 1) % len(cands)]])
+                cfg["overview_levels"] = valid_levels(list(shared["levels"]), cfg["h"], cfg["w"]) if cfg["ovr_mode"] == "levels" else None
+                cfg["seq"] = [k, j]
+                run_case(R, cfg, workdir, f"s{k}_{j}", shared=shared)
+            R.oracle(snapshot(shared) == frozen, "caller-argument-mutated", {"sequence": k, "shared": repr(shared)},
+                     f"option objects re-used across a sequence of writes were modified: {shared!r}", sig="rt|sequence|shared-objects")
+
+        t_seq = time.time()
+        for k in range(R.pick(10, 200)):
+            if time.time() - t_seq > R.pick(12, 150):
+                break
+            sequence(k)
             done += 1
 
         t0 = time.time()
